@@ -174,13 +174,20 @@ def run_instance(spec):
             # a path that dies: candidate violation, decided by concrete replay
             # generic (pseudo-random dyadic) input values are tried first: a dying path is judged by the
             # concrete replay, and special values (0, integers) hide defects such as a lossy integer buffer
-            r, s = core.seeded_check(ctx, ctx.all(), attempts=4)
+            r, s = core.generic_model(ctx, ctx.all())
             entry = {"name": "no_exception", "prefix": _pfx(ctx), "kind": status, "detail": err}
             if status == "exception":
                 entry["traceback"] = tb
             if r == "sat":
                 entry["inputs"] = model_inputs(ctx, s.model())
                 res["cex"].append(entry)
+                if sum(1 for c_ in res["cex"] if c_["name"] == "no_exception") < 4:
+                    # a second, differently biased model of the same path for the replay
+                    rb, sb = core.generic_model(ctx, ctx.all(), prefer="neg")
+                    if rb == "sat":
+                        alt = dict(entry, inputs=model_inputs(ctx, sb.model()))
+                        if alt["inputs"] != entry["inputs"]:
+                            res["cex"].append(alt)
             elif r == "unsat":
                 # dies only under contradictory side conditions: try without engine side conditions
                 r2, s2 = core.check(ctx.assume + ctx.pc)
